@@ -8,6 +8,7 @@ import c12_core
 import c12_topo
 import x11fw
 import x12ol
+import x13zb
 
 
 def run(ctx, replay):
@@ -18,6 +19,9 @@ def run(ctx, replay):
         if str(drv).startswith("x12ol") or str(drv).startswith("objloop"):
             ctx.overlay_tags.add("x12ol")
             x12ol.run(ctx, replay)
+            return
+        if x13zb.is_replay(replay):        # a recorded history of the zone / breaker tier
+            x13zb.replay_file(ctx, replay)
             return
         if drv == "forward-replay":        # a recorded violation of the Forward tier: that tier's own replay entry
             ctx.overlay_tags.add("x11fw")
@@ -44,3 +48,10 @@ def run(ctx, replay):
     if os.path.exists(ov):
         os.remove(ov)
     x12ol.run_tier(ctx)
+    # "the over-budget reply is a SERVFAIL ... that is not cached for other clients": what over-budget trees leave behind in
+    # the state request trees share (ZoneBrk.tla: an attempt the tree's own ledger refused before anything was sent is not
+    # a failure of the server it was aimed at; the budget histories and the counter-examples of the model mutants played on
+    # the real full pipeline in enforce mode)
+    if os.path.exists(ov):
+        os.remove(ov)
+    x13zb.run_tier(ctx)
